@@ -1,5 +1,6 @@
 import Fzf.Lemmas.Rank
 import Fzf.Generated.Consts
+import Fzf.Generated.GoFuncs
 /-
 C04 — results are the matched lines, each once, in rank order.
 Property theorems only.
@@ -122,6 +123,29 @@ theorem C04_slices_count (partitions : Nat) (chunks : List α) :
   simp only
   split <;> simp [sliceGo_length] <;> omega
 
+/-- **Pass-through results (empty query, `--no-sort`) are the loaded items, each once, in input
+    order**: for every chunk layout a snapshot can have — the first chunk partial after `--tail`
+    trimming, the middle chunks full, the last one partially filled — and every chunk size,
+    `Get(i)` is the `i`-th item of the concatenated chunks (`none` beyond the end). -/
+theorem C04_pass_get (cs : Nat) (hcs : 0 < cs) (chunks : List (List Int)) (h : Layout cs chunks) (idx : Nat) :
+    passGet cs chunks false idx = chunks.flatten[idx]? :=
+  passGet_fwd cs hcs chunks h idx
+
+/-- … and in reverse input order under `--tac`. -/
+theorem C04_pass_get_tac (cs : Nat) (hcs : 0 < cs) (chunks : List (List Int)) (h : Layout cs chunks) (idx : Nat) :
+    passGet cs chunks true idx = chunks.flatten.reverse[idx]? :=
+  passGet_tac cs hcs chunks h idx
+
+/-- The clamp applied to every rank point is the function in the source: `util.AsUint16`,
+    translated from /repo on every run, is the model's `asUint16`; a rank point always fits in the
+    16 bits it is packed into. -/
+theorem C04_asUint16_is_source (v : Int) :
+    Generated.Go.AsUint16 v = (asUint16 v : Int) ∧ asUint16 v < 65536 := by
+  unfold Generated.Go.AsUint16 asUint16
+  by_cases h1 : v > 65535 <;> by_cases h2 : v < 0 <;> simp [h1, h2] <;> omega
+
+example : Layout 3 [[7, 8], [9, 10, 11], [12, 13, 14], [15]] := by simp [Layout, Uniform]
+example : passGet 3 [[7, 8], [9, 10, 11], [12, 13, 14], [15]] false 5 = some 12 := by decide
 example : WF ⟨[65535, 0, 7, 65499], 3⟩ := by simp [WF]
 example : compareRanks64 ⟨[0, 0, 1, 65499], 1⟩ ⟨[0, 0, 4, 65499], 2⟩ true = true := by decide
 example : sliceChunks 3 [0, 1, 2, 3, 4, 5, 6] = [[0, 1], [2, 3], [4, 5, 6]] := by decide
